@@ -38,19 +38,19 @@ func TestVerif_C09_Handlers(t *testing.T) {
 	defer R.Finish()
 	base := vkBase("c09h")
 	defer os.RemoveAll(base)
-	R.Rule = "family 2: scenario = one real request (JSON-RPC getBlock / getTransaction / getBlockTime / getSignaturesForAddress on epoch E1, getSlot, getFirstAvailableBlock; gRPC GetBlock / GetTransaction / StreamBlocks / index-accelerated StreamTransactions with two per-account workers on E1) x one reload operation on epoch E2 (AddEpoch, ReplaceOrAddEpoch, RemoveEpoch, RemoveEpochByConfigFilepath, Add then Remove) x E2 loaded at start or not; all interleavings within preemption bound 2 (thorough 3) with happens-before pruning; response compared with the idle-server response(s)"
+	R.Rule = "family 2: scenario = one real request (JSON-RPC getBlock / getTransaction / getBlockTime / getSignaturesForAddress on epoch E1, getSlot, getFirstAvailableBlock; gRPC GetBlock / GetTransaction / StreamBlocks / index-accelerated StreamTransactions with two per-account workers on E1) ; StreamTransactions with two workers and getBlock addressed to E2 itself, for which only completion is demanded) x one reload operation on epoch E2 (AddEpoch, ReplaceOrAddEpoch, RemoveEpoch, RemoveEpochByConfigFilepath, Add then Remove) x E2 loaded at start or not; all interleavings within preemption bound 2 (thorough 3) with happens-before pruning; response compared with the idle-server response(s)"
 	e1, err := vkBuildEpoch(filepath.Join(base, "e1"), cargen.SimpleShape(1, 5, 3, 2), true)
 	if err != nil {
 		R.Internal("build e1: %v", err)
 		return
 	}
-	e2, err := vkBuildEpoch(filepath.Join(base, "e2"), cargen.SimpleShape(2, 3, 2, 1), false)
+	e2, err := vkBuildEpoch(filepath.Join(base, "e2"), cargen.SimpleShape(2, 3, 2, 1), true)
 	if err != nil {
 		R.Internal("build e2: %v", err)
 		return
 	}
 	e1.writeConfig(vkConfigOpts{})
-	e2.writeConfig(vkConfigOpts{NoGsfa: true})
+	e2.writeConfig(vkConfigOpts{})
 	cache := vkNewCache()
 	ep1, err := vkLoadEpoch(e1.ConfigPath, cache)
 	if err != nil {
@@ -62,12 +62,18 @@ func TestVerif_C09_Handlers(t *testing.T) {
 		"getBlock":                fmt.Sprintf(`{"jsonrpc":"2.0","id":1,"method":"getBlock","params":[%d,{"encoding":"base64"}]}`, e1.Truth.Blocks[1].Slot),
 		"getTransaction":          fmt.Sprintf(`{"jsonrpc":"2.0","id":1,"method":"getTransaction","params":[%q,{"encoding":"base64"}]}`, e1.Truth.Txs[2].Sig.String()),
 		"getBlockTime":            fmt.Sprintf(`{"jsonrpc":"2.0","id":1,"method":"getBlockTime","params":[%d]}`, e1.Truth.Blocks[0].Slot),
-		"getSignaturesForAddress": fmt.Sprintf(`{"jsonrpc":"2.0","id":1,"method":"getSignaturesForAddress","params":[%q,{"limit":5}]}`, cargen.Account(0).String()),
+		// an address that has history in E1 only (E2's address index answers "not found" for it)
+		"getSignaturesForAddress": fmt.Sprintf(`{"jsonrpc":"2.0","id":1,"method":"getSignaturesForAddress","params":[%q,{"limit":5}]}`, cargen.Account(2).String()),
+		// an address with history in E1 and in E2: addressed to the epoch being reloaded as well (completion only)
+		"getSignaturesForAddress@E2": fmt.Sprintf(`{"jsonrpc":"2.0","id":1,"method":"getSignaturesForAddress","params":[%q,{"limit":5}]}`, cargen.Account(0).String()),
 		"getSlot":                 `{"jsonrpc":"2.0","id":1,"method":"getSlot"}`,
 		"getFirstAvailableBlock":  `{"jsonrpc":"2.0","id":1,"method":"getFirstAvailableBlock"}`,
 	}
 	qnames := []string{"getBlock", "getTransaction", "getBlockTime", "getSignaturesForAddress", "getSlot", "getFirstAvailableBlock",
-		"grpc:GetBlock", "grpc:GetTransaction", "grpc:StreamTransactions(2 accounts)", "grpc:StreamBlocks"}
+		"grpc:GetBlock", "grpc:GetTransaction", "grpc:StreamTransactions(2 accounts)", "grpc:StreamBlocks",
+		// addressed to E2, the epoch being reloaded: the statement only demands that the operation completes
+		"grpc:StreamTransactions@E2(2 accounts)", "getBlock@E2", "getSignaturesForAddress@E2"}
+	onE2 := func(q string) bool { return strings.Contains(q, "@E2") }
 	// ask performs one query against m and renders its answer as a string (panics are returned, not raised)
 	ask := func(q string, m *MultiEpoch, h func(*fasthttp.RequestCtx)) (resp []byte, pan interface{}) {
 		if body, ok := queries[q]; ok {
@@ -113,6 +119,15 @@ func TestVerif_C09_Handlers(t *testing.T) {
 				}
 			}
 			return render(err, parts...), nil
+		case "grpc:StreamTransactions@E2(2 accounts)":
+			end := e2.Truth.Blocks[len(e2.Truth.Blocks)-1].Slot
+			st := &vkTxStream{vkStreamBase: vkBase0()}
+			err := m.StreamTransactions(&old_faithful_grpc.StreamTransactionsRequest{StartSlot: e2.Truth.Blocks[0].Slot, EndSlot: &end,
+				Filter: &old_faithful_grpc.StreamTransactionsFilter{AccountInclude: []string{cargen.Account(0).String(), cargen.Account(1).String()}}}, st)
+			return render(err, fmt.Sprint(len(st.Got))), nil
+		case "getBlock@E2":
+			_, r, p := vkRPCh(h, fmt.Sprintf(`{"jsonrpc":"2.0","id":1,"method":"getBlock","params":[%d,{"encoding":"base64"}]}`, e2.Truth.Blocks[0].Slot))
+			return r, p
 		case "grpc:StreamBlocks":
 			end := e1.Truth.Blocks[2].Slot
 			st := &vkBlockStream{vkStreamBase: vkBase0()}
@@ -262,6 +277,9 @@ func TestVerif_C09_Handlers(t *testing.T) {
 			bad("no-return|"+sc.Query, "request did not return")
 		default:
 			res.Outcome = vkit.Hash(string(resp))
+			if onE2(sc.Query) {
+				break // E2 does not stay loaded for the whole query: only completion is demanded
+			}
 			if !idle[sc.Query][strip(resp)] {
 				bad("differs-from-idle|"+sc.Query, fmt.Sprintf("%s concurrent with %s answered %q; an idle server answers one of %v", sc.Query, sc.Writer, resp, keysOf(idle[sc.Query])))
 			}
